@@ -296,7 +296,10 @@ def detCheck (fuel : Nat) (r : Rx) : Option Bool :=
   let stepLive (live : Array Bool) : Array Bool :=
     (Array.range n).map (fun i => live.getD i false ||
       ((e.succ.getD i #[]).any (fun k => live.getD k false)))
-  let live := (List.range n).foldl (fun l _ => stepLive l) live0
+  let rec iter : Nat → Array Bool → Array Bool
+    | 0, l => l
+    | k + 1, l => let l' := stepLive l; if l' == l then l else iter k l'
+  let live := iter n live0
   let nm := ms.length
   let conflict := (List.range n).any (fun i =>
     live.getD i false &&
